@@ -220,6 +220,22 @@ class DuctRecorder:
             for reg in a.region:
                 self._owner[id(reg)] = ai
 
+    duct_table = None
+
+    def wall_k(self, reg, T):
+        """Conductivity of the wall material at T: by interpolation through
+        every tabulated conductivity of the input's own table when the duct
+        material is given as a table (entries of other properties may be
+        missing on some rows), else from a private copy of the material."""
+        if self.duct_table is not None:
+            tb = self.duct_table
+            pts = [(float(t), float(k)) for t, k in
+                   zip(tb['temperature'], tb['thermal_conductivity'])
+                   if float(k) > 0]
+            return float(np.interp(float(T), [p[0] for p in pts],
+                                   [p[1] for p in pts]))
+        return drive.mat_props(reg.duct, T).thermal_conductivity
+
     def gap_truth(self, reg, t_gap, htc_gap):
         r = self.reactor
         if r is None or r.core.model is None:
@@ -330,9 +346,8 @@ class DuctRecorder:
                 perim = drive.duct_perims(reg)[i]
                 qtp = (np.asarray(p_duct)[i * ndc:(i + 1) * ndc]
                        / (perim * Lw))
-            k_pre = drive.mat_props(reg.duct, avg_mw[i]).thermal_conductivity
-            k_post = drive.mat_props(
-                reg.duct, float(reg.avg_duct_mw_temp[i])).thermal_conductivity
+            k_pre = self.wall_k(reg, avg_mw[i])
+            k_post = self.wall_k(reg, float(reg.avg_duct_mw_temp[i]))
             cells = self._cells(T_in, h_in, T_out, h_out, qtp, Lw, k_pre,
                                 k_post, reg.temp['duct_surf'][i, 0],
                                 reg.temp['duct_mw'][i],
@@ -347,9 +362,8 @@ class DuctRecorder:
         if np.size(T_in) == 1:
             T_in = np.full(6, float(T_in[0]))
         Lw = wall_thickness(reg)
-        k_pre = drive.mat_props(reg.duct, avg_mw[0]).thermal_conductivity
-        k_post = drive.mat_props(
-            reg.duct, float(reg.avg_duct_mw_temp[0])).thermal_conductivity
+        k_pre = self.wall_k(reg, avg_mw[0])
+        k_post = self.wall_k(reg, float(reg.avg_duct_mw_temp[0]))
         cells = self._cells(T_in, hh if hh is not None else 0.0, t_gap,
                             htc_gap, np.zeros(6), Lw, k_pre, k_post,
                             reg.temp['duct_surf'][0, 0],
